@@ -298,3 +298,84 @@ Theorem C06_value_ap_all : forall cf fx (it : Ty.intty) n, arbitrary_precision c
 Proof. exact (@ValueDeAgreeAp.C06_value_ap_all). Qed.
 Print Assumptions C06_value_ap_all.
 
+From Coq Require Import String List ZArith Lia.
+From SJ Require Import Base.Bytes Base.Utf8 Gen.Tables Model.Read Model.Str Model.Num Model.NumF32 Model.Ignore Model.Ty
+  Gen.CursorTables Gen.ScanTables Model.DeTyped Model.DeAst Gen.DeTables Proofs.DeSrc Proofs.DeSrc2 Model.Value Model.De
+  Model.AccessAst Gen.AccessTables Proofs.AccessSrc.
+From SJ Require Import Proofs.AccessSrc2.
+Local Open Scope string_scope.
+Local Open Scope list_scope.
+Local Open Scope N_scope.
+Theorem C06_access_impls_are_source :
+  forall (E : env) (f : nat) (tok : bool) (fuel : nat) (first : bool) (s : st), (60 <= fuel)%nat ->
+  (* SeqAccess: Model/DeTyped.v de_elems, de_tuple; Model/De.v parse_seq *)
+  (forall t, de_elems (S f) E t first s =
+     loop_step (as_opt (arunA E no_vis tok (de_typed f E t) no_seed no_seed fuel "SeqAccess::next_element_seed" first s))
+       (TOk ([], s)) (fun d first' s2 => let+ (ds, s3) := de_elems f E t first' s2 in TOk (d :: ds, s3))) /\
+  (forall t ts, de_tuple (S f) E (t :: ts) first s =
+     loop_step (as_opt (arunA E no_vis tok (de_typed f E t) no_seed no_seed fuel "SeqAccess::next_element_seed" first s))
+       (TUnpos MInvalidLength s) (fun d first' s2 => let+ (ds, s3) := de_tuple f E ts first' s2 in TOk (d :: ds, s3))) /\
+  DeTyped.lift (parse_seq (S f) E first s) =
+     loop_step (as_opt (arunA E no_vis tok (fun s1 => DeTyped.lift (parse_value f E s1)) no_seed no_seed fuel "SeqAccess::next_element_seed" first s))
+       (TOk ([], s)) (fun v first' s2 => let+ (vs, s3) := DeTyped.lift (parse_seq f E first' s2) in TOk (v :: vs, s3)) /\
+  (* MapAccess: Model/DeTyped.v de_entries, de_fields; Model/De.v parse_map *)
+  (forall k v, de_entries (S f) E k v first s =
+     loop_step (as_opt (arunA E no_vis tok no_seed (de_key f E k) no_seed fuel "MapAccess::next_key_seed" first s))
+       (TOk ([], s))
+       (fun kd first' s2 =>
+          let+ (vd, s4) := as_val (arunA E no_vis tok (de_typed f E v) no_seed no_seed fuel "MapAccess::next_value_seed" first' s2) in
+          let+ (es, s5) := de_entries f E k v first' s4 in
+          TOk ((kd, vd) :: es, s5))) /\
+  (forall fields slots, de_fields (S f) E fields slots first s =
+     loop_step (as_opt (arunA E no_vis tok no_seed
+                          (fun s1 => as_val (arunA E field_vis tok no_seed no_seed no_seed fuel "MapKey::deserialize_identifier" false s1))
+                          no_seed fuel "MapAccess::next_key_seed" first s))
+       (let+ ds := finish_struct fields slots s in TOk (ds, s))
+       (fun name first' s2 =>
+          match index_of name fields with
+          | Some (i, t) =>
+            if slot_filled i slots then TUnpos MDuplicateField s2
+            else
+              let+ (d, s4) := as_val (arunA E no_vis tok (de_typed f E t) no_seed no_seed fuel "MapAccess::next_value_seed" first' s2) in
+              de_fields f E fields (set_slot i d slots) first' s4
+          | None =>
+            let+ (_, s4) := as_val (arunA E no_vis tok (ignored_seed E) no_seed no_seed fuel "MapAccess::next_value_seed" first' s2) in
+            de_fields f E fields slots first' s4
+          end)) /\
+  DeTyped.lift (parse_map (S f) E first s) =
+     loop_step (as_opt (arunA E no_vis tok no_seed
+                          (fun s1 => as_val (arunA E key_string_vis tok no_seed no_seed no_seed fuel "MapKey::deserialize_str" false s1))
+                          no_seed fuel "MapAccess::next_key_seed" first s))
+       (TOk ([], s))
+       (fun k first' s2 =>
+          let+ (v, s4) := as_val (arunA E no_vis tok (fun s3 => DeTyped.lift (parse_value f E s3)) no_seed no_seed fuel
+                                    "MapAccess::next_value_seed" first' s2) in
+          let+ (es, s5) := DeTyped.lift (parse_map f E first' s4) in
+          TOk ((k, v) :: es, s5)) /\
+  (* MapKey: Model/DeTyped.v de_key, every key type *)
+  (forall k, de_key (S f) E k s = as_val (arunA E (key_vis E f k) false no_seed no_seed no_seed fuel (key_method k) first s)) /\
+  (forall t, de_key (S f) E (KInt t) s = as_val (arunA E (vis_int t) tok no_seed no_seed no_seed fuel (key_int_method t) first s)) /\
+  (* VariantAccess / UnitVariantAccess: the TEnum branch of Model/DeTyped.v de_typed *)
+  (forall vs,
+     vis_enum E (S f) vs VcEnumMap s =
+       (let+ (nv, s3) := as_pair (arunA E no_vis tok (variant_seed_of E vs) no_seed no_seed fuel "VariantAccess::variant_seed" false s) in
+        let '(name, v) := nv in
+        tmap (DVariant name)
+          (match v with
+           | VUnit => tmap (fun _ => DUnit) (as_unit_a (arunA E (@no_vis dval) tok no_seed no_seed (unit_seed E) fuel "VariantAccess::unit_variant" false s3))
+           | VNewtype t1 => as_val (arunA E no_vis tok (de_typed (S f) E t1) no_seed no_seed fuel "VariantAccess::newtype_variant_seed" false s3)
+           | VTuple ts => as_val (arunA E (vis_tuple E (S f) ts) tok no_seed no_seed no_seed fuel "VariantAccess::tuple_variant" false s3)
+           | VStruct fields => as_val (arunA E (vis_struct E f fields) tok no_seed no_seed no_seed fuel "VariantAccess::struct_variant" false s3)
+           end)) /\
+     vis_enum E (S f) vs VcEnumUnit s =
+       (let+ (nv, s2) := as_pair (arunA E no_vis tok (variant_seed_of E vs) no_seed no_seed fuel "UnitVariantAccess::variant_seed" false s) in
+        let '(name, v) := nv in
+        match v with
+        | VUnit => tmap (fun _ => DVariant name DUnit) (as_unit_a (arunA E (@no_vis dval) tok no_seed no_seed no_seed fuel "UnitVariantAccess::unit_variant" false s2))
+        | VNewtype _ => as_val (arunA E (@no_vis dval) tok no_seed no_seed no_seed fuel "UnitVariantAccess::newtype_variant_seed" false s2)
+        | VTuple _ => as_val (arunA E (@no_vis dval) tok no_seed no_seed no_seed fuel "UnitVariantAccess::tuple_variant" false s2)
+        | VStruct _ => as_val (arunA E (@no_vis dval) tok no_seed no_seed no_seed fuel "UnitVariantAccess::struct_variant" false s2)
+        end)).
+Proof. exact (@AccessSrc2.access_impls_are_translated_source). Qed.
+Print Assumptions C06_access_impls_are_source.
+
